@@ -666,6 +666,9 @@ func handleQueryCustom(app *BaseApp, path []string, req abci.RequestQuery) (res 
 	ctx := sdk.NewContext(
 		newMS, header, true, app.logger,
 	).WithBlockStore(app.checkState.ctx.BlockStore()).WithAppVersion(app.appVersion)
+	if req.Height != app.LastBlockHeight() {
+		ctx = ctx.WithPastHeightQuery()
+	}
 
 	// Passes the rest of the path as an argument to the querier.
 	//
